@@ -50,14 +50,15 @@ class KafkaTransportSink(MuxSocketTransportSink):
     pass
 
   def _BuildHeader(self, tag, msg_type, data_len):
+    client_id = self.CLIENT_ID.encode('utf-8')
     header = pack(
-      '!ihhih%ds' % len(self.CLIENT_ID),
-      2 + 2 + 4 + 2 + len(self.CLIENT_ID) + data_len,
+      '!ihhih%ds' % len(client_id),
+      2 + 2 + 4 + 2 + len(client_id) + data_len,
       msg_type,
       0,
       tag,
-      len(self.CLIENT_ID),
-      self.CLIENT_ID
+      len(client_id),
+      client_id
     )
     return header
 
